@@ -61,6 +61,8 @@ pub struct Case {
     pub ops: Vec<Op>,
     /// indices i such that the posts i and i+1 (on different links) are written with their frames alternating
     pub interleave: Vec<usize>,
+    /// the continuation transfers of every delivery repeat its delivery-tag (they may)
+    pub repeat_tag: bool,
 }
 
 fn ref_json(r: &TxnRef) -> J {
@@ -81,7 +83,7 @@ fn ref_from(j: &J) -> TxnRef {
 
 impl Case {
     pub fn to_json(&self) -> J {
-        json!({"ctrl_links": self.ctrl_links, "data_links": self.data_links, "interleave": self.interleave, "ops": self.ops.iter().map(|o| match o {
+        json!({"ctrl_links": self.ctrl_links, "data_links": self.data_links, "interleave": self.interleave, "repeat_tag": self.repeat_tag, "ops": self.ops.iter().map(|o| match o {
             Op::Declare { ctrl } => json!({"declare": ctrl}),
             Op::Post { link, txn, frames, settled, state_on_all, abort_first } => json!({"post": link, "txn": ref_json(txn), "frames": frames, "settled": settled, "state_on_all": state_on_all, "abort_first": abort_first}),
             Op::Discharge { ctrl, txn, fail } => json!({"discharge": ctrl, "txn": ref_json(txn), "fail": fail}),
@@ -109,7 +111,7 @@ impl Case {
             }
         }).collect();
         let interleave = j.get("interleave").and_then(|x| x.as_array()).map(|a| a.iter().filter_map(|x| x.as_u64()).map(|x| x as usize).collect()).unwrap_or_default();
-        Some(Case { ctrl_links: j.get("ctrl_links")?.as_u64()? as usize, data_links: j.get("data_links")?.as_u64()? as usize, ops, interleave })
+        Some(Case { ctrl_links: j.get("ctrl_links")?.as_u64()? as usize, data_links: j.get("data_links")?.as_u64()? as usize, ops, interleave, repeat_tag: j.get("repeat_tag").and_then(|x| x.as_bool()).unwrap_or(false) })
     }
 }
 
@@ -174,7 +176,7 @@ pub fn gen_case(rng: &mut Rng, first_frame_state_only: bool) -> Case {
         };
         ops.push(op);
     }
-    Case { ctrl_links, data_links, ops, interleave: vec![] }
+    Case { ctrl_links, data_links, ops, interleave: vec![], repeat_tag: rng.chance(1, 3) }
 }
 
 // ------------------------------------------------------------------------------- the run
@@ -211,6 +213,7 @@ struct Script {
     session_gone: Option<String>,
     /// the op being issued, and per transfer written: (op, what `TxnSession::on_incoming_transfer` looks at)
     cur_op: usize,
+    repeat_tag: bool,
     frame_log: Vec<(usize, String)>,
     txn_names: Vec<Vec<u8>>,
 }
@@ -232,7 +235,7 @@ impl Script {
             }
             _ => "-".to_string(),
         };
-        self.frame_log.push((op, format!("{}:{}:{}:{}:{}", t.handle.0, txn, t.delivery_tag.is_some() as u8, t.more as u8, t.aborted as u8)));
+        self.frame_log.push((op, format!("{}:{}:{}:{}:{}", t.handle.0, txn, t.delivery_tag.as_ref().map(|b| b.iter().fold(0u64, |a, x| a * 256 + *x as u64).to_string()).unwrap_or_else(|| "-".into()), t.more as u8, t.aborted as u8)));
     }
 
     /// a delivery that is begun (one frame with `more`, carrying `state`) and aborted by its second frame
@@ -265,7 +268,7 @@ impl Script {
         for (i, p) in pieces.iter().enumerate() {
             let first = i == 0;
             let last = i + 1 == pieces.len();
-            let mut t = transfer(handle, if first { Some(id) } else { None }, if first { Some(self.tag.to_be_bytes().to_vec()) } else { None }, if first { Some(settled) } else { None }, !last);
+            let mut t = transfer(handle, if first { Some(id) } else { None }, if first || self.repeat_tag { Some(self.tag.to_be_bytes().to_vec()) } else { None }, if first { Some(settled) } else { None }, !last);
             if first || state_on_all {
                 t.state = state.clone();
             }
@@ -296,7 +299,7 @@ impl Script {
                     let first = i == 0;
                     let last = i + 1 == pieces.len();
                     let st = if which == 0 { settled.0 } else { settled.1 };
-                    let mut t = transfer(h, if first { Some(self.next_out) } else { None }, if first { Some(tag.to_be_bytes().to_vec()) } else { None }, if first { Some(st) } else { None }, !last);
+                    let mut t = transfer(h, if first { Some(self.next_out) } else { None }, if first || self.repeat_tag { Some(tag.to_be_bytes().to_vec()) } else { None }, if first { Some(st) } else { None }, !last);
                     if first {
                         if which == 0 { ids.0 = self.next_out } else { ids.1 = self.next_out }
                     }
@@ -435,7 +438,7 @@ pub fn run_case(case: &Case) -> Result<Observed, String> {
             (_, Performative::Begin(_), _) => {}
             (_, other, _) => return Err(format!("expected begin, got {}", summarize(&other, 0))),
         }
-        let mut sc = Script { peer, next_out: 0, ctrl_handles: vec![], data_handles: vec![], tag: 0, session_gone: None, cur_op: 0, frame_log: vec![], txn_names: vec![] };
+        let mut sc = Script { peer, next_out: 0, ctrl_handles: vec![], data_handles: vec![], tag: 0, session_gone: None, cur_op: 0, repeat_tag: case.repeat_tag, frame_log: vec![], txn_names: vec![] };
         // links: control links first
         let mut handle = 0u32;
         for c in 0..case.ctrl_links {
@@ -1525,6 +1528,7 @@ pub fn main(opts: &Opts) {
                             Op::Post { link: 0, txn: TxnRef::None, frames: 2, settled: false, state_on_all: true, abort_first: false },
                         ],
                         interleave: vec![1],
+                        repeat_tag: frames == 3 && all_a,
                     });
                 }
             }
@@ -1543,7 +1547,7 @@ pub fn main(opts: &Opts) {
                     ops.push(Op::Post { link: 0, txn: TxnRef::None, frames, settled: false, state_on_all: true, abort_first: false });
                     ops.push(Op::Discharge { ctrl: 0, txn: TxnRef::Slot(0), fail });
                     ops.push(Op::Post { link: 0, txn: TxnRef::None, frames: 2, settled: false, state_on_all: true, abort_first: false });
-                    corpus.push(Case { ctrl_links: 1, data_links: 1, ops, interleave: vec![] });
+                    corpus.push(Case { ctrl_links: 1, data_links: 1, ops, interleave: vec![], repeat_tag: plain_first && frames == 2 });
                 }
             }
         }
